@@ -99,7 +99,7 @@ def to_json_model(ac, path):
         fns.append({"Name": m["name"], "Annotations": [{"Name": a} for a in m["annos"]], "FunctionCalls": calls,
                     "Position": {"StartLine": line, "StopLine": l}})
         m["_start"] = line
-        m["_lines"] = {i: line + 1 + i for i in range(len(m["atoms"]))}
+        m["_lines"] = {str(i): line + 1 + i for i in range(len(m["atoms"]))}
         line = l + 2
     for hn, hatoms in ac["helpers"].items():
         calls = []
@@ -141,7 +141,7 @@ def to_java(ac, rng):
     for m, f in zip(ac["methods"], facts["functions"]):
         m["_start"] = f["startLine"]
         # one call fact per atom (helper/other/new included), in order
-        m["_lines"] = {i: c["line"] for i, c in enumerate(f["calls"])}
+        m["_lines"] = {str(i): c["line"] for i, c in enumerate(f["calls"])}
     return text
 
 
@@ -240,9 +240,9 @@ def expected(classes):
                 exp.append(("EmptyTest", ac["path"], None))
             for i, a in enumerate(atoms):
                 if a in ("print", "printf"):
-                    exp.append(("RedundantPrintTest", ac["path"], m["_lines"][i]))
+                    exp.append(("RedundantPrintTest", ac["path"], m["_lines"][str(i)]))
                 if a == "sleep":
-                    exp.append(("SleepyTest", ac["path"], m["_lines"][i]))
+                    exp.append(("SleepyTest", ac["path"], m["_lines"][str(i)]))
                 if a in ("eq", "asserteq"):
                     exp.append(("RedundantAssertionTest", ac["path"], None))
             has_assert = any(a in ("assert", "asserteq", "assert2") for a in atoms) or \
